@@ -38,7 +38,9 @@ def extra(binary, build, tier, rng):
     B = 1 << 64
     def bits(x):
         return struct.unpack("<Q", struct.pack("<d", x))[0]
-    ps = [bits(1 / 3), bits(1.5 * 2.0 ** -53), bits(1e-18), bits(1 - 2.0 ** -53)] if tier == "quick" else \
+    # quick: odd and even mantissas, the bottom of a binade (0.5, 2^-k), the middle (1.5*2^-53), the top (1 - 2^-53), a tiny p
+    ps = [bits(1 / 3), bits(1.5 * 2.0 ** -53), bits(1e-18), bits(1 - 2.0 ** -53), bits(0.5), bits(2.0 ** -(2 + rng.below(40))),
+          bits((1 + 2 * rng.bits(50) / float(1 << 52)) * 2.0 ** -(1 + rng.below(30)))] if tier == "quick" else \
         [bits(x) for x in (0.5, 1 / 3, 0.1, 0.9, 1e-3, 2.0 ** -20, 1e-10, 2.0 ** -52, 2.0 ** -53, 1.5 * 2.0 ** -53, 1e-16, 1e-18, 2.0 ** -63, 1.5 * 2.0 ** -64,
                                2.0 ** -64, 1 - 2.0 ** -53, 0.999, 2.2e-16, 2.3e-16, 1e-15)] + [bits(rng.bits(53) / float(1 << 53) * 2.0 ** -rng.below(60)) for _ in range(8)]
     calls = 0
@@ -48,62 +50,54 @@ def extra(binary, build, tier, rng):
             pval = Fraction(struct.unpack("<d", struct.pack("<Q", pb))[0])
             mk2 = lambda w1, w2: "bern p=%d via=%s n=1 words=%d,%d" % (pb, v, w1, w2)
             cache = {}
+            SEEDS2 = sorted(set([(1 << k) for k in range(64)] + [B - (1 << k) for k in range(64)] + [(B // 64) * i for i in range(1, 64)]))
             def g(w1):
-                """number of second words giving true (assumed a prefix [0, T) of the second word: validated below)"""
+                """the set of second words giving true, as runs of a step function of the second word (seeded with structured points, so that
+                a set that is not a prefix [0, T) - e.g. one that wraps around at the top - is found too; validated below)"""
                 if w1 in cache:
                     return cache[w1]
                 p2 = Prober(binary, lambda w2: mk2(w1, w2), lambda res: (parse_ok(res) or ["?"])[0])
-                if p2.one(0) != "1":
-                    t = 0
-                elif p2.one(B - 1) == "1":
-                    t = B
+                runs2 = steps(p2, 0, B - 1, max_steps=12, seeds=SEEDS2)
+                if runs2 is None:
+                    cache[w1] = (-1, None, p2.calls)
                 else:
-                    lo, hi = 0, B - 1          # true at lo, false at hi
-                    while hi - lo > 1:
-                        mid = (lo + hi) // 2
-                        if p2.one(mid) == "1":
-                            lo = mid
-                        else:
-                            hi = mid
-                    t = hi
-                cache[w1] = (t, p2.calls)
+                    cache[w1] = (sum(rl - rf + 1 for rf, rl, rv in runs2 if rv == "1"), runs2, p2.calls)
                 return cache[w1]
             class G:
                 calls = 0
                 def one(self, w1):
-                    t, c = g(w1)
-                    return t
+                    return g(w1)[0]
             gp = G()
             runs = steps(gp, 0, B - 1, max_steps=80)
-            calls += sum(c for (_, c) in cache.values())
-            if runs is None:
-                yield {"kind": "note", "text": "chance(p=%#x): the number of true second words is not a small step function of the first word - measure inconclusive" % pb}
+            calls += sum(c for (_, _, c) in cache.values())
+            if runs is None or any(t < 0 for _, _, t in runs):
+                yield {"kind": "note", "text": "chance(p=%#x): the set of true second words is not a small step function of the words - measure inconclusive" % pb}
                 continue
-            # validation: monotone structure holds at random points
+            # validation: the structure found at the first word of each run holds at random points of the run
             ok = True
             pv = Prober(binary, lambda pair: mk2(pair[0], pair[1]), lambda res: (parse_ok(res) or ["?"])[0])
             for first, last, t in runs:
-                for _ in range(64):        # a periodic (non-monotone) dependence on the first word must not slip through: 64 threshold probes per run
+                rep = cache[first][1]
+                def want_at(x):
+                    return next(rv for rf, rl, rv in rep if rf <= x <= rl)
+                for _ in range(64):        # a periodic (non-monotone) dependence on the first word must not slip through: 64 probe groups per run
                     w1 = first + rng.below(last - first + 1)
-                    # at the threshold itself: the last true and the first false second word, and a random one
-                    w2 = rng.below(B)
-                    checks = [(w2, "1" if w2 < t else "0")]
-                    if t > 0:
-                        checks.append((t - 1, "1"))
-                    if t < B:
-                        checks.append((t, "0"))
-                    for x, want in checks:
-                        if pv.one((w1, x)) != want:
+                    xs = [rng.below(B)]
+                    for rf, rl, _rv in rep[:4] + rep[-2:]:      # both sides of every boundary of the representative
+                        xs += [rf, rl]
+                    for x in xs:
+                        if pv.one((w1, x)) != want_at(x):
                             ok = False
             calls += pv.calls
             if not ok:
-                yield {"kind": "note", "text": "chance(p=%#x): outcome is not monotone in the words - measure inconclusive" % pb}
+                yield {"kind": "note", "text": "chance(p=%#x): the set of true word pairs is not the step structure found - measure inconclusive" % pb}
                 continue
             measure = Fraction(sum((last - first + 1) * t for first, last, t in runs), B * B)
             tol = pval * Fraction(1, 1 << 52) + Fraction(1, 1 << 64)
             if abs(measure - pval) > tol:
-                wit = next(((first, t) for first, last, t in runs if t not in (0, B)), (runs[0][0], runs[0][2]))
-                yield {"kind": "oracle", "build": build, "request": mk2(wit[0], max(0, wit[1] - 1)), "impl": "runs (first word from, to, true second words): %s" % str(runs[:6]), "model": "",
+                wf = next((first for first, last, t in runs if t not in (0, B)), runs[0][0])
+                w2s = [rl for rf, rl, rv in cache[wf][1] if rv == "1"]
+                yield {"kind": "oracle", "build": build, "request": mk2(wf, w2s[-1] if w2s else 0), "impl": "runs (first word from, to, true second words): %s" % str(runs[:6]), "model": "",
                        "oracle": "P(%s(p) = true) over uniformly distributed word pairs is %.6e for p = %.6e: off by %.3e, allowed %.3e (p*2^-52 + 2^-64)" % (
                            "chance" if v == "chance" else "Bernoulli::sample", float(measure), float(pval), float(abs(measure - pval)), float(tol))}
     yield {"kind": "count", "what": "measure-search-probes", "n": calls}
